@@ -131,3 +131,8 @@ CORPUS += [
                 raise
 """, "S"),
 ]
+# round 12: a pending handshake's response is accepted whatever session state the connection holds
+CORPUS += [
+    M("handshake-response-refused-once-keyed", L, "            if not self._handshake_pending:\n                raise ProtocolError(\"Unexpected handshake response.\")",
+      "            if not self._handshake_pending or self._local_key is not None:\n                raise ProtocolError(\"Unexpected handshake response.\")"),
+]
